@@ -4155,3 +4155,31 @@ def product_same_nodes(r: R, chk, qual: str, rule="PRODUCT-SAME-NODES"):
                func=qual, construct="factors sampled at different nodes")
     chk.floor(rule, f"span loops with two sampled factors in {qual}", n, 1)
     return n
+
+
+# ---------------------------------------------------------------------------------------------------------
+# ABS-INSIDE: the error of a vector-valued fit is reduced over absolute values
+def abs_inside(r: R, chk, quals: List[str], rule="ABS-INSIDE", floor: int = 1):
+    """P^T E P is a matrix for vector-valued points (one entry per pair of coordinates).  The number compared with the tolerance is
+    the largest (or the sum) of the ABSOLUTE entries: `abs(np.sum(M))` lets entries of opposite sign cancel — a curve in the plane
+    x + y + z = 1 (barycentric points) has error 0 whatever is removed."""
+    n = 0
+    for q in quals:
+        fi = r.prog.func(q)
+        for a in ast.walk(fi.node):
+            if not (isinstance(a, ast.Assign) and len(a.targets) == 1 and isinstance(a.targets[0], ast.Name) and "error" in a.targets[0].id.lower()):
+                continue
+            for c in ast.walk(a.value):
+                if isinstance(c, ast.Call) and seg(c.func) in ("np.sum", "np.max", "np.amax", "np.mean", "sum", "max", "np.trace") and c.args:
+                    arg = c.args[0]
+                    if not any(isinstance(x, ast.Name) and "error" in x.id.lower() for x in ast.walk(arg)):
+                        continue
+                    n += 1
+                    inner_abs = isinstance(arg, ast.Call) and seg(arg.func) in ("np.abs", "abs", "np.absolute", "np.fabs")
+                    additive = seg(c.func) in ("np.sum", "np.mean", "sum", "np.trace")
+                    ok = inner_abs or not additive
+                    chk.ob(rule, f"{q}: `{seg(c, 40)}` reduces absolute values", ok, loc=f"{fi.module}.py:{c.lineno}",
+                           detail="" if ok else f"{q}: `{seg(a, 60)}` adds up the signed entries of the error matrix before taking the absolute value: entries of opposite sign cancel, so for vector-valued control points whose coordinates add up to something smooth (a curve in the plane x + y + z = 1) the error handed to the tolerance gate is 0 and a knot / degree that is not removable is removed",
+                           func=q, construct="error entries summed with their signs")
+    chk.floor(rule, "reductions of the error matrix to one number", n, floor)
+    return n
